@@ -115,12 +115,39 @@ var FieldDeepEqualContainer = `
 		return false
 	}
 	{{- $src := .GenID "_src"}}
-	{{- $idx := "i"}}
-	{{- if eq .Type.Category.String "Map" }}{{$idx = "k"}}{{end}}
-	for {{$idx}}, v := range {{.Target}} {
-		{{$src}} := {{.Source}}[{{$idx}}]
-		{{- $ctx := (.ValCtx.WithTarget "v").WithSource $src}}
+	{{- $ctx := (.ValCtx.WithTarget "v").WithSource $src}}
+	{{- if eq .Type.Category.String "Map" }}
+	{{- if .KeyCtx.Type.Category.IsStructLike}}
+	{{- /* struct-like keys are pointers: find the equal key by value, not by identity */}}
+	{{- $found := .GenID "_found"}}
+	for k, v := range {{.Target}} {
+		{{$found}} := false
+		for k2, {{$src}} := range {{.Source}} {
+			if !k.DeepEqual(k2) {
+				continue
+			}
+			{{$found}} = true
+			{{- template "FieldDeepEqual" $ctx}}
+			break
+		}
+		if !{{$found}} {
+			return false
+		}
+	}
+	{{- else}}
+	for k, v := range {{.Target}} {
+		{{$src}}, ok := {{.Source}}[k]
+		if !ok {
+			return false
+		}
 		{{- template "FieldDeepEqual" $ctx}}
 	}
+	{{- end}}{{/* if struct-like key */}}
+	{{- else}}
+	for i, v := range {{.Target}} {
+		{{$src}} := {{.Source}}[i]
+		{{- template "FieldDeepEqual" $ctx}}
+	}
+	{{- end}}{{/* if Map */}}
 {{- end}}{{/* "FieldDeepEqualContainer" */}}
 `
